@@ -74,6 +74,7 @@ func c26Opts(dir string, cfg int) Options {
 	o.BlockSize = 128
 	o.ValueThreshold = 64
 	o.NumVersionsToKeep = 100
+	o.ValueLogMaxEntries = 1 // the value log rotates between the requests (streams) of one Write call
 	switch cfg {
 	case 1:
 		o.EncryptionKey = []byte("0123456789abcdef")
